@@ -12,7 +12,8 @@ Inductive obs_res :=
 | OInt (z : Z)         (* api 2, 4 *)
 | OUnit                (* api 3: nil error *)
 | OErr                 (* an error was returned *)
-| OPanic.
+| OPanic
+| OHang.               (* the call (or the sensor's mutex afterwards) was still blocked when the harness watchdog fired *)
 
 Record case := mkCase {
   c_api : Z;              (* 0 SafeCmdExecution 1 CmdSensor.GetValue 2 CmdFan.GetPwm 3 CmdFan.SetPwm 4 CmdFan.GetRpm *)
@@ -101,6 +102,7 @@ Definition Holds (c : case) : Prop :=
   | OUnit => True
   | OErr => True
   | OPanic => False
+  | OHang => False
   end.
 
 Definition holdsb (c : case) : bool :=
@@ -112,12 +114,13 @@ Definition holdsb (c : case) : bool :=
   | OUnit => true
   | OErr => true
   | OPanic => false
+  | OHang => false
   end.
 
 Lemma holdsb_spec c : holdsb c = true <-> Holds c.
 Proof.
   unfold holdsb, Holds. rewrite andb_true_iff, Z.leb_le.
-  destruct (o_res c) as [t|f|z| | |].
+  destruct (o_res c) as [t|f|z| | | |].
   - rewrite text_eqb_eq. reflexivity.
   - destruct (c_parse c) as [f'|]; split.
     + intros [H1 H2]. split; [exact H1|]. exists f'. auto.
@@ -131,6 +134,7 @@ Proof.
     + intros [_ [f2 [E _]]]. discriminate.
   - tauto.
   - tauto.
+  - split; [intros [_ H]; discriminate|tauto].
   - split; [intros [_ H]; discriminate|tauto].
 Qed.
 
